@@ -22,3 +22,62 @@ Definition on_host (m : rmap) (a : adapter) (dp : option str) (u : str) : Prop :
   exists rest, u = url_root m a dp ++ rest ++ query_suffix a
     /\ starts_with [SLASH] rest = false
     /\ forallb (fun c => negb (c =? QMARK) && negb (c =? HASH)) rest = true.
+
+(* ------------------------------------------------------------------ defaults / alias canonicalisation
+   (MapAdapter.get_default_redirect, make_alias_redirect_url), on the URL builder of C04/Model.v *)
+From Wz Require Import C04.Model.
+
+(* Rule._trace: what Rule.__eq__ compares *)
+Definition BAR : N := 124.
+Definition trace_seg (s : seg) : list (bool * str) :=
+  match s with
+  | SLit k => if is_nil k then [] else [(false, k)]
+  | SDyn pre _ n post =>
+      (if is_nil pre then [] else [(false, pre)]) ++ [(true, n)] ++ (if is_nil post then [] else [(false, post)])
+  end.
+Definition rule_trace (r : rule) : list (bool * str) :=
+  trace_seg (r_dom r) ++ [(false, [BAR])]
+  ++ flat_map (fun s => (false, [SLASH]) :: trace_seg s)
+       (r_segs r ++ match r_tail r with Some n => [SDyn [] CPath n []] | None => [] end)
+  ++ (if is_branch r then [(false, [SLASH])] else []).
+
+Definition trace_item_eqb (x y : bool * str) : bool := Bool.eqb (fst x) (fst y) && list_eqb (snd x) (snd y).
+Definition trace_eqb (x y : list (bool * str)) : bool := lex_eq trace_item_eqb x y.
+Definition subset (x y : list str) : bool := forallb (fun k => has k y) x.
+Definition set_eqb (x y : list str) : bool := subset x y && subset y x.
+
+(* Rule.provides_defaults_for(rule) *)
+Definition provides_defaults_for (r rule0 : rule) : bool :=
+  negb (is_nil (r_defaults r)) && (r_endpoint r =? r_endpoint rule0)
+  && negb (trace_eqb (rule_trace r) (rule_trace rule0))
+  && set_eqb (rule_arguments r) (rule_arguments rule0).
+
+(* get_default_redirect: the rules of the endpoint in build order, up to the matched rule itself *)
+Fixpoint default_redirect_loop (m : rmap) (a : adapter) (meth : str) (rule0 : rule) (vals : list (str * value))
+         (rs : list rule) : bres (option str) :=
+  match rs with
+  | [] => BOk None
+  | r :: rs' =>
+      if r_idx r =? r_idx rule0 then BOk None
+      else if provides_defaults_for r rule0 && suitable_for r vals (Some meth) then
+        bbind (build_rule r (dict_update vals (r_defaults r))) (fun dp =>
+          BOk (Some (make_redirect_url m a (snd dp) (Some (fst dp)))))
+      else default_redirect_loop m a meth rule0 vals rs'
+  end.
+Definition get_default_redirect (m : rmap) (a : adapter) (meth : str) (rule0 : rule) (vals : list (str * value))
+  : bres (option str) :=
+  default_redirect_loop m a meth rule0 vals (rules_for m (r_endpoint rule0)).
+
+(* make_alias_redirect_url: build(endpoint, values, method, append_unknown=False, force_external=True) + ?query;
+   a BuildError is an exception *)
+Definition alias_redirect_url (m : rmap) (a : adapter) (meth : str) (rule0 : rule) (vals : list (str * value)) : bres str :=
+  bbind (adapter_build m a (r_endpoint rule0) vals (Some meth) true) (fun ou =>
+    match ou with
+    | Some u => BOk (u ++ query_suffix a)
+    | None => BValueError
+    end).
+
+Definition router_hooks : hooks := {| h_alias := alias_redirect_url; h_default := get_default_redirect |}.
+(* MapAdapter.match with everything the router does on its own *)
+Definition router_match (m : rmap) (a : adapter) (path_info meth : str) : outcome :=
+  map_match router_hooks m a path_info meth.
